@@ -195,9 +195,14 @@ func (r *Reader) Info() (*Info, error) {
 	if err != nil {
 		return nil, fmt.Errorf("failed to get current stream position: %w", err)
 	}
+	// constructing the iterator switches the Reader's shared lexer to chunk-emitting mode; put
+	// the mode back, so that a sequential iterator that is in the middle of its scan on this
+	// Reader does not start skipping chunks.
+	emitChunks := r.l.emitChunks
 	it := r.indexedMessageIterator(&ReadOptions{
 		UseIndex: true,
 	})
+	r.l.emitChunks = emitChunks
 	err = it.parseSummarySection()
 	if _, seekErr := r.rs.Seek(pos, io.SeekStart); seekErr != nil && err == nil {
 		err = fmt.Errorf("failed to restore stream position: %w", seekErr)
